@@ -21,6 +21,9 @@ def run(tier: str, keep: bool = False) -> int:
     r.solo("arrivals", "D", fam, ["md", "fd", "eof", "poll", "tick"], 5, props, limit=8000 if q else 80000)
     r.solo("afterEof", "D", fam, ["md", "fd", "poll", "tick"], 6, props, pre=[["md", "fd"], ["fd", "eof"], ["eof", "fd"]],
            limit=6000 if q else 80000)
+    # three and more gaps with room for one or two requests per NAK PDU: sequences split over three and more PDUs
+    famG = 'Numbered({ [SoloBase(3, 1, 6) EXCEPT !.immNak = FALSE, !.maxPkt = mp] : mp \\in {27, 35} })'
+    r.solo("manygaps", "D", famG, ["poll", "tick"], 7, props, pre=[["md"], ["fd"], ["fd"], ["fd"], ["eof"], ["poll"]])
     r.driver("dst_grid", 600 if q else 10000, props)
     r.schedules("pairK2", "FamAck(3, {1, 3})", ["C03", "C06", "C10"], K=2, faults=["drop", "dup", "swap"], limit=500 if q else None)
     r.judge()
